@@ -26,6 +26,7 @@ func main() {
 	n := flag.Int("goroutines", 16, "goroutines per area")
 	iters := flag.Int("iters", 200, "iterations per goroutine")
 	codec := flag.Int("codec", 0, "codec matrix: exchanges per goroutine (codecs.go)")
+	mw := flag.Int("mw", 0, "shared-state middlewares and samplers: exchanges per goroutine and configuration (middlewares.go)")
 	gobIn := flag.String("gob", "", "encode the bodies listed in this file with gob and exit (codecs.go)")
 	flag.Parse()
 	w, err := vio.NewWriter()
@@ -39,6 +40,9 @@ func main() {
 	}
 	if *codec > 0 {
 		codecMatrix(w, *n, *codec)
+	}
+	if *mw > 0 {
+		middlewareMatrix(w, *n, *mw)
 	}
 
 	run := func(area string, f func(g, i int) bool) {
